@@ -32,6 +32,17 @@ var (
 	verifC15ObjectCap = 5000
 )
 
+// Hooks set by c15_open.go (only injected into the obligations that open the CAR through the real
+// carreader.New): the header of the image as it sits in the file, and the opener.
+var (
+	c15Open   func(img []byte) *carreader.CarReader
+	c15Header func(nroots int) []byte
+)
+
+// c15FlushKind is the kind the accumulator under test flushes on ("block" in the oracle's wording);
+// KindBlock for every caller in the repository, varied by C15.flushkind.
+var c15FlushKind = iplddecoders.KindBlock
+
 func c15Cid(seed byte) cid.Cid {
 	b := []byte{0x01, 0x71, 0x12, 0x20}
 	for i := 0; i < 32; i++ {
@@ -69,9 +80,18 @@ var c15DataLens = [][]int{
 
 // c15Image builds the CAR image and the section table.
 func c15Image(H int, k int, lens []int, kinds []byte) ([]byte, []c15Section) {
+	return c15ImageHdr(nil, H, k, lens, kinds)
+}
+
+// c15ImageHdr: hdr != nil is the real header (prefix + dag-cbor) placed at the start of the image.
+func c15ImageHdr(hdr []byte, H int, k int, lens []int, kinds []byte) ([]byte, []c15Section) {
 	img := make([]byte, 0, 1024)
-	for i := 0; i < H; i++ {
-		img = append(img, byte(0xa0+i))
+	if hdr != nil {
+		img = append(img, hdr...)
+	} else {
+		for i := 0; i < H; i++ {
+			img = append(img, byte(0xa0+i))
+		}
 	}
 	secs := make([]c15Section, k)
 	for i := 0; i < k; i++ {
@@ -202,7 +222,7 @@ func c15CheckRecord(tag string, img []byte, secs []c15Section, skip, n int, kind
 			last = idx
 			delivered[idx] = true
 			c15CheckObject(tag, img, secs, ch, idx)
-			ok = ok && iplddecoders.Kind(kinds[idx]) != iplddecoders.KindBlock && !c15Ignored(ign, kinds[idx])
+			ok = ok && iplddecoders.Kind(kinds[idx]) != c15FlushKind && !c15Ignored(ign, kinds[idx])
 		}
 		if g.hasParent {
 			idx := c15IndexOf(secs, g.parent.Offset)
@@ -212,7 +232,7 @@ func c15CheckRecord(tag string, img []byte, secs []c15Section, skip, n int, kind
 			lastBlock = idx
 			delivered[idx] = true
 			c15CheckObject(tag, img, secs, g.parent, idx)
-			ok = ok && iplddecoders.Kind(kinds[idx]) == iplddecoders.KindBlock
+			ok = ok && iplddecoders.Kind(kinds[idx]) == c15FlushKind
 		} else {
 			verifAssert(wantFinal, tag+": a parentless group was delivered although the traversal failed")
 			verifAssert(gi == len(got)-1, tag+": a group without a block is not the last group")
@@ -228,7 +248,7 @@ func c15CheckRecord(tag string, img []byte, secs []c15Section, skip, n int, kind
 		if !wantFinal && i > lastBlock {
 			continue // objects after the last complete block are dropped when the traversal fails
 		}
-		miss = miss && iplddecoders.Kind(kinds[i]) != iplddecoders.KindBlock && c15Ignored(ign, kinds[i])
+		miss = miss && iplddecoders.Kind(kinds[i]) != c15FlushKind && c15Ignored(ign, kinds[i])
 	}
 	verifAssert(miss, tag+": an object that is a block or of a non-ignored kind was not delivered")
 	if !wantFinal {
@@ -236,7 +256,7 @@ func c15CheckRecord(tag string, img []byte, secs []c15Section, skip, n int, kind
 		all := true
 		for i := skip; i < n; i++ {
 			if !delivered[i] {
-				all = all && iplddecoders.Kind(kinds[i]) != iplddecoders.KindBlock
+				all = all && iplddecoders.Kind(kinds[i]) != c15FlushKind
 			}
 		}
 		verifAssert(all, tag+": a block read completely before the failure was not delivered")
@@ -271,10 +291,27 @@ func VerifC15Run() {
 		skip = verifChoice("skip", ms+1)
 	}
 	kinds := verifBytes("kind", k)
-	img, secs := c15Image(H, k, lens, kinds)
+	realOpen := verifParam("realopen", 0) == 1 && c15Open != nil
+	var hdr []byte
+	if realOpen {
+		hdr = c15Header(1 + verifChoice("roots", verifParam("maxroots", 1)))
+		H = len(hdr)
+	}
+	img, secs := c15ImageHdr(hdr, H, k, lens, kinds)
 
 	cb, got := c15Recorder(verifParam("slow", 0) == 1)
-	oa := NewObjectAccumulator(c15NewReader(img, H), iplddecoders.KindBlock, cb, ign...)
+	c15FlushKind = iplddecoders.KindBlock
+	if nf := verifParam("flushkinds", 0); nf > 0 {
+		// C15.flushkind: the flush kind is a constructor argument, not a constant of the traversal
+		c15FlushKind = []iplddecoders.Kind{iplddecoders.KindTransaction, iplddecoders.KindEntry, iplddecoders.KindEpoch, iplddecoders.KindDataFrame}[verifChoice("flushkind", nf)]
+	}
+	var rd *carreader.CarReader
+	if realOpen {
+		rd = c15Open(img)
+	} else {
+		rd = c15NewReader(img, H)
+	}
+	oa := NewObjectAccumulator(rd, c15FlushKind, cb, ign...)
 	if skip > 0 {
 		oa.SetSkip(uint64(skip))
 	}
